@@ -62,7 +62,14 @@ def workspace(c):
     elif form == "self_path":
         ty = "self::local::Target"
     same_crate = form in ("crate_path", "super_path", "self_path", "use_crate")
-    consumer = uses + f"#[typeshare]\npub struct Consumer {{ pub r: {ty}, pub list: Vec<{ty}> }}\n"
+    # MC_C14!Shapes: the consumer's ONLY references to the type
+    shape = c.get("shape", "plain_and_vec")
+    members = {"plain_and_vec": f"pub r: {ty}, pub list: Vec<{ty}>", "map_key": f"pub r: HashMap<{ty}, String>", "map_val": f"pub r: HashMap<String, {ty}>",
+               "gen_first": f"pub r: Pair<{ty}, String>", "gen_last": f"pub r: Pair<String, {ty}>",
+               "gen_nested_first": f"pub r: Vec<Pair<Option<{ty}>, Vec<u32>>>"}[shape]
+    consumer = uses + f"#[typeshare]\npub struct Consumer {{ {members} }}\n"
+    if shape.startswith("gen_"):
+        consumer += "#[typeshare]\npub struct Pair<A, B> { pub a: A, pub b: B }\n"
     if c.get("shadow"):
         consumer += "#[typeshare]\npub struct Wrapper<Target> { pub w: Target, pub more: Vec<Target> }\n"
     path = {"lib": "consumer/src/lib.rs", "deep": "consumer/src/a/b.rs", "deeper": "consumer/src/x/y/z/w.rs"}[c["depth"]]
@@ -160,7 +167,7 @@ def run(chk):
         except Exception:  # noqa
             chk.extra["unreadable_outputs"] = chk.extra.get("unreadable_outputs", 0) + 1
             continue
-        expected = ([{"name": pre + "Wrapper", "file": exp["consumer"]}] if c.get("shadow") else []) + [{"name": pre + "Consumer", "file": exp["consumer"]}, {"name": pre + "Third", "file": exp["third"]}, {"name": pre + "Other", "file": exp["provider"]}]
+        expected = ([{"name": pre + "Wrapper", "file": exp["consumer"]}] if c.get("shadow") else []) + ([{"name": pre + "Pair", "file": exp["consumer"]}] if c.get("shape", "").startswith("gen_") else []) + [{"name": pre + "Consumer", "file": exp["consumer"]}, {"name": pre + "Third", "file": exp["third"]}, {"name": pre + "Other", "file": exp["provider"]}]
         clash = c["dup"] and not c.get("dup_renamed")          # a renamed third-crate type has another name in the output
         if c.get("dup_renamed"):
             expected.append({"name": pre + "ThirdTarget", "file": exp["third"]})
@@ -205,7 +212,7 @@ def run(chk):
                     if e["designated"].get(i["name"]) == f["file"] and i["name"] in f["defs"]:
                         kinds.append("own-type-imported-from-elsewhere")
         for kind in sorted(set(kinds)) or ["unclassified"]:
-            chk.mismatch(f"C14/{lang}/{'' if c.get('root', 'plain') == 'plain' else 'root=' + c['root'] + '/'}{c['form']}{'+shadowing-generic-parameter' if c.get('shadow') else ''}/{'renamed' if c['renamed'] else 'plain'}/{('dup-renamed' if c.get('dup_renamed') else 'dup') if c['dup'] else 'nodup'}/{kind}",
+            chk.mismatch(f"C14/{lang}/{'' if c.get('root', 'plain') == 'plain' else 'root=' + c['root'] + '/'}{c['form']}{'+shadowing-generic-parameter' if c.get('shadow') else ''}{'' if c.get('shape', 'plain_and_vec') == 'plain_and_vec' else '+only-reference=' + c['shape']}/{'renamed' if c['renamed'] else 'plain'}/{('dup-renamed' if c.get('dup_renamed') else 'dup') if c['dup'] else 'nodup'}/{kind}",
                          f"{lang}: {kind} for workspace {c}: files {fobs}", {"case": c, "lang": lang}, "Workspace!PartitionOk /\\ ImportsOk", fobs)
     chk.traces += len(events) - len(tres.bad)
     chk.extra["trace_events"] = len(events)
